@@ -41,6 +41,12 @@ CHECKS = {
         note=RAFT_NOTE),
 }
 
+CHECKS["C19"] = dict(
+    category="model_checking", design_ref="5 C19", engine="tlc+elsim",
+    technique="TLA+ spec (EntryLog.tla) model-checked by TLC; TLC trace validation of operation sequences executed on the real raft entryLog + LogReader",
+    text="EntryLog.tla defines every answer of the entry log (last/first index, term at index, entries of a range, entries to save, entries to apply) as a function of the logical log; TLC checks the specification's invariants (re-appended entries are saved again, nothing applied before committed and handed out for saving) exhaustively for small bounds and recomputes every answer of the real entryLog over the real LogReader after every operation of thousands of seeded sequences (appends, conflicts at any position, commit advances, Update/Commit cycles with apply lag, restores, compactions, resizes); slices handed out earlier must never change.",
+    note="Trusted: TLC; the elsim driver (harness/logdb) and a faithful in-memory ILogDB under the LogReader; overlay-added accessors in package raft (harness/raftexport).")
+
 NOT_APPLICABLE = {
     "C13": "encode/decode fidelity and size arithmetic of hand-written codecs over the numeric input space: no state/transition structure for a TLA+ specification to describe (DESIGN.md section 6)",
 }
@@ -94,6 +100,8 @@ def main():
             {"name": "tlc+rsim", "path": "/verif/lib/raftfamily.py",
              "serves_properties": ["C02", "C03", "C06", "C07", "C18"],
              "kind_free_text": "TLC exhaustive model checking of MCRaft + TLC trace validation (RaftTrace) of executions of the real internal/raft recorded by the rsim harness"},
+            {"name": "tlc+elsim", "path": "/verif/lib/c19.py", "serves_properties": ["C19"],
+             "kind_free_text": "TLC model checking of MCEntryLog + TLC trace validation (EntryLogTrace) of the real entryLog/LogReader driven by harness/logdb/elsim_test.go"},
         ],
         "checks": checks,
         "not_applicable": na,
